@@ -45,14 +45,14 @@ CHECKS['C02'] = dict(level=MC, ref='4 C02',
     text=TT + '. WellFormed (abstract view) and RawOK (raw block structure: charge rule under Charges!Add for every stored block, unique ordered blocks, one dimension per (leg, charge), '
          'size, is_consistent()) are conjuncts of every event; Inv_WF is an INVARIANT over all registers after every event; the charge law of each operation is part of its reference. '
          'Program profile: ranks up to 6+, n-ary additions over operands in different lazy-transposition states, add_leg/remove_leg over fused groups with mixed signatures, both fusion modes.',
-    note='bounded as C01 but ranks up to 6 (one or two sectors per leg), 9/12-step programs, 420/6000 programs; factorisation results are checked with the same operators in C04',
+    note='bounded as C01 but ranks up to 6 (one or two sectors per leg), 9/12-step programs, 420/6000 programs; factorisation results are checked with the same operators in C04. Programs are generated and run under all three tensordot policies and both default fusion modes (knob rotates with the seed); diag() of (lazily transposed) matrices is part of the profile',
     technique='TLA+ invariant (WellFormed / RawOK / Inv_WF) evaluated by TLC on every observed state of recorded programs')
 CHECKS['C03'] = dict(level=MC, ref='4 C03',
     text=TT + '. In the spec fusion only regroups native legs (fusion trees), never touches an element, so unfuse(fuse(x)) = x, norm invariance and "operations over fused legs = operations over '
          'the original legs, missing sectors are zeros" hold by construction and are decided on the implementation. Scenarios: S1 binary ops over identically fused operands whose legs are '
          'independent subsets of one universe (equal/overlapping/disjoint content), S2 trace over fused legs, S3 incompatibly fused operands (order, partition, mode, hidden constituent signature) '
          'must end in YastnError, S4 fuse to depth<=3 / unfuse roundtrip; hard, meta and mixed; lazy transpositions.',
-    note='bounded: ranks 2..4, universes of 2-3 charges, dims 1..2, 1260 (quick) / 12000 (thorough) scenarios; yastn.block (sum legs) not covered',
+    note='bounded: ranks 2..4, universes of 2-3 charges, dims 1..2, 1260 (quick) / 12000 (thorough) scenarios; yastn.block (sum legs) not covered. Added scenarios: S5 sparse operands contracted in place over 2-3 legs (original vs fused, depth 1-2), S6 contractions whose merged operand needs zero padding of exactly the size of the partner-less blocks, S7 n-ary sums with a dimension conflict hidden inside a hard-fused group and invisible from the first operand (TraceTensor!MustRejectHidden: must be rejected in every operand order); all scenarios rotate over the three policies x two default modes',
     technique='TLA+ label model of fusion (TensorOps) + TLC trace validation of recorded scenario programs')
 CHECKS['C14'] = dict(level=MC, ref='4 C14',
     text='Hyper-traces: one generated program is executed under 8 configurations (3 tensordot policies x 2 default fusion modes + 2 force_fusion settings) and under 3 placements of '
@@ -60,7 +60,7 @@ CHECKS['C14'] = dict(level=MC, ref='4 C14',
          'hence with each other), and TraceHyper.tla compares the executions with each other event by event: outcome, signature, charge, fusion-tree shapes and legs (ObsEqAll).',
     note='bounded: 140 (quick) / 2100 (thorough) programs of 7/9 steps from tensordot, add, trace, transpose, fuse/unfuse, conj, vdot, diag, broadcast, apply_mask, add/remove_leg; '
          'svd/qr are compared across policies in C04 (gauge-invariant observables); contract_with_unroll (paths, unrolling, slicing) is NOT covered yet. One open KNOWN FINDING (stored structurally-zero blocks of the fusing '
-         'kernels change get_legs() of later results): its canonical reproducer runs in every check; only leg differences confined to all-zero sectors match it',
+         'kernels change get_legs() of later results): its canonical reproducer runs in every check; only leg differences confined to all-zero sectors match it. Programs that mix an explicit fusion mode with the default one are different computations under each default (hard- and meta-fused legs cannot be combined, C03): they are compared across policies and lazy placements within one default mode only (counted in the evidence)',
     technique='TLA+ hyper-property over executions (TraceHyper) + per-execution trace validation against TensorOps')
 CHECKS['C05'] = dict(level=MC, ref='4 C05',
     text='(a) swap_gate / swap_gate(charge=): recorded programs under fermionic True/False/per-component flags validated by TLC against TensorOps!SwapGate/SwapCharge (sign fixed by the parities of the '
@@ -69,7 +69,7 @@ CHECKS['C05'] = dict(level=MC, ref='4 C05',
          '(sum over label assignments with the crossing signs). (c) fkron: FockMC.tla model-checks the CAR for the graded Fock model (all / per-species / none), and TraceFock.tla requires the dense matrix '
          'of every fkron call (all site permutations and application orders of <=3 operators, spinless Z2/U1 and spinful Z2/U1/U1xU1/U1xU1xZ2) to equal the ordered operator product.',
     note='bounded: 150/2500 swap programs, 600/8000 networks of 2-4 tensors with two sectors per leg and mostly dimension one, <=24 orders each; fkron <=3 operators; two KNOWN FINDINGS (ncon scheduler: '
-         'swap on a traced label; AssertionError in _resolve_bad_swaps) are reproduced and reported on every run',
+         'swap on a traced label; AssertionError in _resolve_bad_swaps) are reproduced and reported on every run. One network in four is disconnected (outer product of two pieces with different numbers of open legs, swaps between open legs of different pieces)',
     technique='TLA+ reference semantics (TensorOps!SwapGate/Ncon, Fock) + TLC model checking of the CAR + trace validation of recorded calls for all contraction orders')
 CHECKS['C16'] = dict(level=MC, ref='4 C16',
     text='LruCache.tla models the caches as instances (maxsize, LRU order, stored values) bound to call sites, with set_cache_maxsize creating new instances while import-time aliases keep the old '
@@ -105,7 +105,7 @@ CHECKS['C04'] = dict(level=MC, ref='4 C04',
          'which factor carries the total charge, agreement of U/S/V on the connecting space, raw well-formedness; operands with prescribed integer spectra are compared per sector.',
     note='reconstruction, isometry / co-isometry, non-negativity and ordering of S, upper-triangularity and non-negative diagonal of R are floating-point facts MEASURED by the harness (tolerance 1e-10 '
          'relative, named in the check) and enter the trace as verdict bits that the spec requires to be TRUE - observed, not modelled. eig (bi-orthonormal pairs) and low-rank policies not covered. '
-         'bounded: 480 (quick) / 8000 (thorough) programs, ranks 2..6, all symmetries',
+         'bounded: 480 (quick) / 8000 (thorough) programs, ranks 2..6, all symmetries. eig (general eigendecomposition): structure of U, S, V (TensorOps, as svd with square sectors), reconstruction and V U = 1 (1e-8) on generic non-degenerate square operands incl. groups that are meta-fused differently; one open KNOWN FINDING: eig on a sector with a degenerate spectrum (rescaling of arbitrarily paired left/right eigenvectors)',
     technique='TLA+ structure semantics of factorisations (TensorOps) + TLC trace validation; numeric clauses as measured verdicts')
 CHECKS['C06'] = dict(level=MC, ref='4 C06',
     text='Registers hold alpha(to_tensor()) of real MPS/MPO objects whose site tensors are small integers, so every object has an exact Gaussian-integer dense representative. TLC (TraceTensor m_* events) '
@@ -124,7 +124,7 @@ CHECKS['C07'] = dict(level=MC, ref='4 C07',
          'placing sites in the fermionic order); (ii) measure_1site / measure_2site (single bonds i<j, i=j, i>j and every string pattern) / measure_nsite on integer MPS equal <bra| word |ket> on the '
          'Fock vectors, with bra != ket in the sector the product maps to. Spin-1/2 runs with the grading "none" (bosonic: no strings); U1xU1 spinful with per-species grading.',
     note='bounded: chain lengths 2..4 (<= 6 modes), 1-3 terms of 1-4 operators from {n, c, cp} / {nu, nd, cu, cd, cpu, cpd, Sp, Sm, nund}, 64/960 jobs x 14/20 events; Generator.mpo_from_latex, rdm and '
-         'sample probabilities not covered yet; generate_mpo output rounded to Gaussian integers at 1e-9 (SVD compression inside)',
+         'sample probabilities not covered yet; generate_mpo output rounded to Gaussian integers at 1e-9 (SVD compression inside). measure_1site is also asked for all sites, for site lists and for dictionaries {site: operator} in any key order; sample(): for every drawn configuration the returned probability (logged as the integer nearest to p <psi|psi> m^N) must equal the Born rule |sum_S conj(u(S)) psi(S)|^2 computed by TLC - occupation basis in every symmetry, x / y bases (complex local vectors) in Spin12/dense; one-mode families only',
     technique='TLA+ Fock-space reference (Fock) + TLC trace validation of recorded generate_mpo / measure calls')
 CHECKS['C08'] = dict(level=MC, ref='4 C08',
     text='MpsCanon.tla: the gauge state machine of MpsMpoOBC (central-block position, per-site left/right isometry flags, exact-state / same-ray / unit-norm guarantees) with orthogonalize_site_, '
@@ -180,7 +180,7 @@ CHECKS['C18'] = dict(level=MC, ref='4 C18',
     note='all dense comparisons are floating-point observations. expmv bound: (20 tol + 1e-13 (10 + map applications)) x condition number of the task, claims with bound > 1e-3 skipped; eigs statements that presume an '
          'orthonormal basis (interlacing, orthonormal Ritz vectors) only for ncv <= 15 (no re-orthogonalisation), numerically ambiguous breakdowns not claimed; three open known findings (breakdown drops a '
          'residual below tol; undetected breakdown in eigs; optimistic error estimate up to 2000 tol). calls needing > 4000 controller iterations are skipped and counted. bounded: sectors of dimension 2..120/200, '
-         '80/420 maps x (7 expmv + 2 eigs + 2 lin_solver)',
+         '80/420 maps x (7 expmv + 2 eigs + 2 lin_solver). A fourth open KNOWN FINDING: Hermitian Lanczos loses orthogonality in long recursions (canonical reproducer dim 40, ncv 40: second Ritz pair wrong although the space spans the sector)',
     technique='TLA+ controller model (Krylov, KrylovMC incl. liveness) + TLC + trace validation of controller iterations recorded from real expmv calls; measured verdicts against dense references')
 CHECKS['C12'] = dict(level=MC, ref='4 C12',
     text='EnvCover.tla is the design-level account of WHY the environments of a finite open PEPS are exact: every environment object (CTM tensor, boundary MPS, NTU cluster) stands for a region of the '
@@ -194,7 +194,7 @@ CHECKS['C12'] = dict(level=MC, ref='4 C12',
          'tensor (after k = 0..max expansions), boundary MPS and NTU metric really depends on equals the region / cluster of EnvCover.',
     note='measured numbers enter as the Gaussian integer nearest to value * <psi|psi> (must be within 1e-8 relative), metric and truncation numbers in units of 1e-12 - floating-point observations; the expected values, '
          'signs, regions and clusters are computed by TLC. BP nn values only on tree bonds; EnvCTM as a truncation environment on finite lattices (bond_metric / update_bond_) is outside the statement and not '
-         'exercised; sampling not covered. bounded: lattices 1x2..3x3, 2x4, 4x2, 1x5 (<= 9 modes; probes up to 4x5), 8 families, 48/640 states of up to ~100 amplitudes, <psi|psi> <= 2^26, ~25/60 measured operators per state',
+         'exercised; sampling not covered. bounded: lattices 1x2..3x3, 2x4, 4x2, 1x5 (<= 9 modes; probes up to 4x5), 8 families, 48/640 states of up to ~100 amplitudes, <psi|psi> <= 2^26, ~25/60 measured operators per state. BpCover.tla / BpCoverMC: belief propagation as message passing on the entanglement graph in ANY order of single updates - on a forest never a double count and the only fixpoint is exact (1-site and tree-bond nn formulas count the entangled component once), a cycle double counts, a bond outside the forest inside one component double counts (quick: every graph of 1x3 and 2x2; thorough: every forest of 1x4, 2x3, 3x2, 1.25 M states); BP dependency probes: messages after k = 1..3 sweeps of update_ in the recorded order. A second open KNOWN FINDING: identically vanishing NTU metric (SVD-1 hair in a charged sector, canonical stored state)',
     technique='TLA+ coverage model of the environments (EnvCover, EnvCoverMC) + exact Fock-space expectation values (PepsMeasure) + TLC + trace validation of recorded measure / bond_metric / evolution_step_ calls and of dependency probes')
 NA = {}
 m = {"version": 1, "setup_cmd": "true",
